@@ -456,6 +456,8 @@ class Run:
         os.makedirs(os.path.join(ROOT, "evidence"), exist_ok=True)
         json.dump(ev, open(os.path.join(ROOT, "evidence", self.prop + ".json"), "w"), indent=1, default=str)
         seen = set()
+        # violations with a concrete failing input first: that replay is the one to look at
+        self.violations.sort(key=lambda v: not v[2])
         for what, path, found in self.violations:
             if path in seen:
                 continue
